@@ -129,21 +129,49 @@ def axiom_audit(names, mods):
 
 def proof_half(prop, tier):
     info = {"translator": run_translator()}
-    mods = ["Qhttp.Props." + prop] + props.BRIDGES.get(prop, [])
+    # a bridge module about a function the translator could not translate on this tree is skipped (tie by correspondence)
+    untr = [u.split(" (")[0] for u in info["translator"].get("untranslatable", [])]
+    skipped = {}
+    bridge_mods = []
+    for bm in props.BRIDGES.get(prop, []):
+        miss = [f for f in props.BRIDGE_NEEDS.get(bm, []) if f in untr]
+        if miss:
+            skipped[bm] = miss
+        else:
+            bridge_mods.append(bm)
+    info["bridges_skipped"] = skipped
+    mods = ["Qhttp.Props." + prop] + bridge_mods
     ok_drv, out_drv = lake_build(["qhttp-driver"])
     if not ok_drv:
         return {"fatal": "the model/driver does not build (framework defect, not a property verdict):\n" + out_drv[-3000:]}
     built, failed_mods = [], []
-    for m in mods:
-        ok, out = lake_build([m])
-        if ok:
-            built.append(m)
-        else:
-            failed_mods.append((m, out[-3000:]))
+    ok_all, _ = lake_build(mods)
+    if ok_all:
+        built = list(mods)
+    else:
+        for m in mods:
+            ok, out = lake_build([m])
+            if ok:
+                built.append(m)
+            else:
+                failed_mods.append((m, out[-3000:]))
     names = theorems_of(os.path.join(LEAN, "Qhttp", "Props", prop + ".lean"), "Qhttp." + prop)
-    for bm in props.BRIDGES.get(prop, []):
-        names += theorems_of(os.path.join(LEAN, *bm.split(".")) + ".lean", bm)
-    checkable = [n for n in names if any(n.startswith(m.replace("Qhttp.Props.", "Qhttp.") + ".") or n.startswith(m + ".") for m in built)]
+    for bm in bridge_mods:
+        ns = bm
+        for grp in ("QhttpBridge.Sock", "QhttpBridge.Range", "QhttpBridge.Proxy"):
+            if bm.startswith(grp + "."):
+                ns = grp                     # the per-function modules of a group share its namespace
+        names += theorems_of(os.path.join(LEAN, *bm.split(".")) + ".lean", ns)
+    def ns_of(m):
+        for grp in ("QhttpBridge.Sock", "QhttpBridge.Range", "QhttpBridge.Proxy"):
+            if m.startswith(grp + "."):
+                return grp
+        return m
+    built_thms = set()
+    for m in built:
+        if m.startswith("QhttpBridge."):
+            built_thms |= set(theorems_of(os.path.join(LEAN, *m.split(".")) + ".lean", ns_of(m)))
+    checkable = [n for n in names if n in built_thms or any(n.startswith(m.replace("Qhttp.Props.", "Qhttp.") + ".") for m in built if not m.startswith("QhttpBridge."))]
     audit, txt = axiom_audit(checkable, built)
     discharged, bad = [], []
     for n in names:
@@ -532,6 +560,7 @@ def main():
             "axioms_reported": pinfo["axioms"],
             "trusted_base": props.TRUSTED_COMMON + desc.get("trusted", []),
             "translator": pinfo["translator"],
+            "bridge_modules_skipped_untranslatable": pinfo.get("bridges_skipped", {}),
             "evaluations": len(lines), "distinct_nontrivial": nontriv, "distinct": distinct,
             "rule": desc["rule"],
             "traces_validated_against_impl": sum(1 for r in results if r["eq"]),
